@@ -18,3 +18,28 @@ package queries
 //@ func (t TypeBoolean) ValidateValue(operator string, value any) (err error)
 //@   property C38
 //@   ensures err == nil ==> is(value, bool)
+
+// ---- field.go: which operators a field type admits (C38) -------------------------------------------------------
+// validateFilters refuses a filter whose operator is not in Type.Operators() of the property; the sets below are those
+// lists, and the Operators contracts pin them to the code (a list that changes fails its contract).
+//@ define strOps(op string) bool = op == "$match" || op == "$like" || op == "$in"
+//@ define ordOps(op string) bool = op == "$match" || op == "$lt" || op == "$gt" || op == "$lte" || op == "$gte"
+//@ define boolOps(op string) bool = op == "$match"
+//@ define strMapOps(op string) bool = strOps(op) || op == "$exists"
+//@ define numMapOps(op string) bool = ordOps(op) || op == "$exists"
+
+//@ func (t TypeString) Operators() (r []string)
+//@   property C38
+//@   ensures len(r) == 3 && r[0] == "$match" && r[1] == "$like" && r[2] == "$in"
+
+//@ func (t TypeDate) Operators() (r []string)
+//@   property C38
+//@   ensures len(r) == 5 && r[0] == "$match" && r[1] == "$lt" && r[2] == "$gt" && r[3] == "$lte" && r[4] == "$gte"
+
+//@ func (t TypeNumeric) Operators() (r []string)
+//@   property C38
+//@   ensures len(r) == 5 && r[0] == "$match" && r[1] == "$lt" && r[2] == "$gt" && r[3] == "$lte" && r[4] == "$gte"
+
+//@ func (t TypeBoolean) Operators() (r []string)
+//@   property C38
+//@   ensures len(r) == 1 && r[0] == "$match"
